@@ -367,6 +367,22 @@ func codecCheck(c *codecCase, res *Result) {
 		fail(fmt.Sprintf("Encode bytes differ from the reference at offset %d (got %#x, want %#x)", i, buf[i], wire[i]))
 		return
 	}
+	// the destination is rarely fresh memory (the broker encodes straight into a ring buffer that has been used
+	// before): Encode must write every one of its Len() bytes
+	dirty := bytes.Repeat([]byte{0xa5}, c.Len+4)
+	n, err = m.Encode(dirty)
+	if err != nil || n != c.Len || !bytes.Equal(dirty[:n], wire) {
+		i := 0
+		for i < n && i < len(wire) && dirty[i] == wire[i] {
+			i++
+		}
+		fail(fmt.Sprintf("Encode into a buffer that held other bytes before (0xa5...) leaves byte %d of the packet unwritten or wrong (n=%d err=%v)", i, n, err))
+		return
+	}
+	if !bytes.Equal(dirty[n:], []byte{0xa5, 0xa5, 0xa5, 0xa5}) {
+		fail("Encode writes behind the Len() bytes of the packet")
+		return
+	}
 	// a buffer one byte too small must be refused, not overrun
 	if c.Len > 2 {
 		small := make([]byte, c.Len-1)
